@@ -423,6 +423,25 @@ fn pair_reset(out: &mut Out, rng: &mut Rng, pool: &[(Syllable, Vec<KeyCode>)], c
             break;
         }
     }
+    // every sixth session: make sure a range is being highlighted (Shift-Left after two syllables)
+    if rng.chance(1, 6) {
+        let mut forced: Vec<Op> = vec![];
+        if a.ed.is_selecting() {
+            forced.push(Op::Key(KeyCode::Esc, Modifiers::default()));
+        }
+        for _ in 0..2 {
+            forced.extend(rng.pick(pool).1.iter().map(|k| Op::Key(*k, Modifiers::default())));
+        }
+        forced.push(Op::Key(KeyCode::Left, Modifiers::shift()));
+        for op in forced {
+            let ev = event(&op);
+            hist.push(op_s(&op, &ev));
+            if apply(&mut a, &op, ev).is_err() {
+                ps.panics += 1;
+                return;
+            }
+        }
+    }
     let pre = a.ed.verif_snapshot();
     ps.r_sessions += 1;
     ps.r_state[match pre.as_bytes()[0] { b'E' => 0, b'Y' => 1, b'S' => 2, _ => 3 }] += 1;
